@@ -50,14 +50,8 @@ type BaseInSession struct {
 
 	observer IBaseInSessionObserver
 
-	audioRtpConn     *nazanet.UdpConnection
-	videoRtpConn     *nazanet.UdpConnection
-	audioRtcpConn    *nazanet.UdpConnection
-	videoRtcpConn    *nazanet.UdpConnection
-	audioRtpChannel  int
-	audioRtcpChannel int
-	videoRtpChannel  int
-	videoRtcpChannel int
+	// udp连接和interleaved channel，见 transportHolder
+	tp transportHolder
 
 	sessionStat base.BasicSessionStat
 
@@ -145,13 +139,20 @@ func (session *BaseInSession) SetObserver(observer IBaseInSessionObserver) {
 }
 
 func (session *BaseInSession) SetupWithConn(uri string, rtpConn, rtcpConn *nazanet.UdpConnection) error {
-	if session.sdpCtx.IsAudioUri(uri) {
-		session.audioRtpConn = rtpConn
-		session.audioRtcpConn = rtcpConn
-	} else if session.sdpCtx.IsVideoUri(uri) {
-		session.videoRtpConn = rtpConn
-		session.videoRtcpConn = rtcpConn
-	} else {
+	isAudio, isVideo := session.sdpCtx.IsAudioUri(uri), session.sdpCtx.IsVideoUri(uri)
+	if !isAudio && !isVideo {
+		return nazaerrors.Wrap(base.ErrRtsp)
+	}
+	if !session.tp.update(func(t *transport) {
+		if isAudio {
+			t.audioRtpConn, t.audioRtcpConn = rtpConn, rtcpConn
+		} else {
+			t.videoRtpConn, t.videoRtcpConn = rtpConn, rtcpConn
+		}
+	}) {
+		// 已经被dispose（比如被踢），这两个连接不会再有人释放
+		_ = rtpConn.Dispose()
+		_ = rtcpConn.Dispose()
 		return nazaerrors.Wrap(base.ErrRtsp)
 	}
 
@@ -162,16 +163,20 @@ func (session *BaseInSession) SetupWithConn(uri string, rtpConn, rtcpConn *nazan
 }
 
 func (session *BaseInSession) SetupWithChannel(uri string, rtpChannel, rtcpChannel int) error {
-	if session.sdpCtx.IsAudioUri(uri) {
-		session.audioRtpChannel = rtpChannel
-		session.audioRtcpChannel = rtcpChannel
-		return nil
-	} else if session.sdpCtx.IsVideoUri(uri) {
-		session.videoRtpChannel = rtpChannel
-		session.videoRtcpChannel = rtcpChannel
-		return nil
+	isAudio, isVideo := session.sdpCtx.IsAudioUri(uri), session.sdpCtx.IsVideoUri(uri)
+	if !isAudio && !isVideo {
+		return nazaerrors.Wrap(base.ErrRtsp)
 	}
-	return nazaerrors.Wrap(base.ErrRtsp)
+	if !session.tp.update(func(t *transport) {
+		if isAudio {
+			t.audioRtpChannel, t.audioRtcpChannel = rtpChannel, rtcpChannel
+		} else {
+			t.videoRtpChannel, t.videoRtcpChannel = rtpChannel, rtcpChannel
+		}
+	}) {
+		return nazaerrors.Wrap(base.ErrRtsp)
+	}
+	return nil
 }
 
 // ---------------------------------------------------------------------------------------------------------------------
@@ -199,14 +204,15 @@ func (session *BaseInSession) GetSdp() sdp.LogicContext {
 }
 
 func (session *BaseInSession) HandleInterleavedPacket(b []byte, channel int) {
+	tp := session.tp.get()
 	switch channel {
-	case session.audioRtpChannel:
+	case tp.audioRtpChannel:
 		fallthrough
-	case session.videoRtpChannel:
+	case tp.videoRtpChannel:
 		_ = session.handleRtpPacket(b)
-	case session.audioRtcpChannel:
+	case tp.audioRtcpChannel:
 		fallthrough
-	case session.videoRtcpChannel:
+	case tp.videoRtcpChannel:
 		_ = session.handleRtcpPacket(b, nil)
 	default:
 		Log.Errorf("[%s] read interleaved packet but channel invalid. channel=%d", session.UniqueKey(), channel)
@@ -215,17 +221,18 @@ func (session *BaseInSession) HandleInterleavedPacket(b []byte, channel int) {
 
 // WriteRtpRtcpDummy 发现pull时，需要先给对端发送数据，才能收到数据
 func (session *BaseInSession) WriteRtpRtcpDummy() {
-	if session.videoRtpConn != nil {
-		_ = session.videoRtpConn.Write(dummyRtpPacket)
+	tp := session.tp.get()
+	if tp.videoRtpConn != nil {
+		_ = tp.videoRtpConn.Write(dummyRtpPacket)
 	}
-	if session.videoRtcpConn != nil {
-		_ = session.videoRtcpConn.Write(dummyRtcpPacket)
+	if tp.videoRtcpConn != nil {
+		_ = tp.videoRtcpConn.Write(dummyRtcpPacket)
 	}
-	if session.audioRtpConn != nil {
-		_ = session.audioRtpConn.Write(dummyRtpPacket)
+	if tp.audioRtpConn != nil {
+		_ = tp.audioRtpConn.Write(dummyRtpPacket)
 	}
-	if session.audioRtcpConn != nil {
-		_ = session.audioRtcpConn.Write(dummyRtcpPacket)
+	if tp.audioRtcpConn != nil {
+		_ = tp.audioRtcpConn.Write(dummyRtcpPacket)
 	}
 }
 
@@ -321,11 +328,11 @@ func (session *BaseInSession) handleRtcpPacket(b []byte, rAddr *net.UDPAddr) err
 			if rrBuf != nil {
 				if rAddr != nil {
 					// the sr may arrive on the rtcp socket of the other track while this track has no udp socket (not setup, or setup interleaved)
-					if session.audioRtcpConn != nil {
-						_ = session.audioRtcpConn.Write2Addr(rrBuf, rAddr)
+					if c := session.tp.get().audioRtcpConn; c != nil {
+						_ = c.Write2Addr(rrBuf, rAddr)
 					}
 				} else {
-					_ = session.cmdSession.WriteInterleavedPacket(rrBuf, session.audioRtcpChannel)
+					_ = session.cmdSession.WriteInterleavedPacket(rrBuf, session.tp.get().audioRtcpChannel)
 				}
 				session.sessionStat.AddWriteBytes(len(b))
 			}
@@ -336,11 +343,11 @@ func (session *BaseInSession) handleRtcpPacket(b []byte, rAddr *net.UDPAddr) err
 			if rrBuf != nil {
 				if rAddr != nil {
 					// the sr may arrive on the rtcp socket of the other track while this track has no udp socket (not setup, or setup interleaved)
-					if session.videoRtcpConn != nil {
-						_ = session.videoRtcpConn.Write2Addr(rrBuf, rAddr)
+					if c := session.tp.get().videoRtcpConn; c != nil {
+						_ = c.Write2Addr(rrBuf, rAddr)
 					}
 				} else {
-					_ = session.cmdSession.WriteInterleavedPacket(rrBuf, session.videoRtcpChannel)
+					_ = session.cmdSession.WriteInterleavedPacket(rrBuf, session.tp.get().videoRtcpChannel)
 				}
 				session.sessionStat.AddWriteBytes(len(b))
 			}
@@ -427,17 +434,18 @@ func (session *BaseInSession) dispose(err error) error {
 	session.disposeOnce.Do(func() {
 		Log.Infof("[%s] lifecycle dispose rtsp BaseInSession. session=%p", session.UniqueKey(), session)
 		var e1, e2, e3, e4 error
-		if session.audioRtpConn != nil {
-			e1 = session.audioRtpConn.Dispose()
+		tp := session.tp.takeForDispose()
+		if tp.audioRtpConn != nil {
+			e1 = tp.audioRtpConn.Dispose()
 		}
-		if session.audioRtcpConn != nil {
-			e2 = session.audioRtcpConn.Dispose()
+		if tp.audioRtcpConn != nil {
+			e2 = tp.audioRtcpConn.Dispose()
 		}
-		if session.videoRtpConn != nil {
-			e3 = session.videoRtpConn.Dispose()
+		if tp.videoRtpConn != nil {
+			e3 = tp.videoRtpConn.Dispose()
 		}
-		if session.videoRtcpConn != nil {
-			e4 = session.videoRtcpConn.Dispose()
+		if tp.videoRtcpConn != nil {
+			e4 = tp.videoRtcpConn.Dispose()
 		}
 
 		session.waitChan <- nil
